@@ -65,7 +65,7 @@ def run(tier, replay=None):
         # strata: ordinary geometry; the same with all coefficients scaled down (the property is relative to the block's own
         # largest element and the integrals are linear in the coefficients, so an absolute cut-off inside one translation shows
         # up here); one shell 1e-5..1e-4 bohr from the ECP centre (terms spanning many orders of magnitude); a weakly
-        # overlapping pair (both shells far from the ECP, tight exponents)
+        # overlapping pair (both shells far from the ECP, tight exponents); planar / linear arrangements along the Cartesian axes
         strata = {}
         def add(LA, LB, L, stratum, A, B, C, scale=1.0, emin=0.05, emax=50.0):
             sa = gen.rand_shell(rng, LA, A, emin=emin, emax=emax); sb = gen.rand_shell(rng, LB, B, emin=emin, emax=emax)
@@ -91,6 +91,10 @@ def run(tier, replay=None):
                     add(LA, LB, L, "near-centre", A, near, C, emin=0.3, emax=5.0)
                 A = [c + x for c, x in zip(C, gen.rand_point(rng, 4.5, 6.0))]; B = [c + x for c, x in zip(C, gen.rand_point(rng, 4.5, 6.0))]
                 add(LA, LB, L, "weak-overlap", A, B, C, emin=1.0, emax=2.5)
+            # special positions (exact zeros among the shifted coordinates): planar and linear arrangements
+            for gk in (["planar-z", rng.choice(["planar-x", "planar-y"]), "axial"] if tier == "quick" else ["planar-x", "planar-y", "planar-z", "axial", "axial"]):
+                A, B, C = gen.geometry(rng, gk)
+                add(LA, LB, L, gk, A, B, C)
         res.cov["stratum_histogram"] = strata
         cf = os.path.join(tmp, "cases.txt"); gen.write_cases(cf, cases)
         outs = {}
